@@ -66,3 +66,62 @@ def c09(prop, tier):
             total[k] += len(res['violations']) if k == 'violations' else res.get(k, 0)
     log('  isolation: %(behaviours)d behaviours, %(steps)d steps, %(comparisons)d comparisons, %(violations)d violations' % total)
     return ck.finish()
+
+
+# ---------------------------------------------------------------------------
+# C02: eventual delivery
+
+def sys_cfg(spec, reps, writes, faults, invs='Converged LogsSane CachesCover', props=''):
+    return ('System.cfg', '''SPECIFICATION %s
+CONSTANTS Replica = {%s}  MaxWrites = %d  MaxFaults = %d
+INVARIANTS %s
+%s
+CHECK_DEADLOCK FALSE
+''' % (spec, ', '.join('"%s"' % r for r in reps), writes, faults, invs, ('PROPERTIES ' + props) if props else ''))
+
+
+SYS_RENAME = {'SWrite': 'Write', 'SReceive': 'Receive', 'SObserveJoin': 'ObserveJoin', 'SCut': 'Cut', 'SHeal': 'Heal', 'SDrop': 'Drop',
+              'SRestart': 'Restart', 'SFinalize': 'Finalize'}
+
+
+def c02(prop, tier):
+    ck = Check(prop, tier)
+    thorough = tier == 'thorough'
+    ck.rule = ('behaviours of spec/System.tla (writes on 2-4 replicas interleaved with link cuts and heals, dropped, duplicated and '
+               'reordered announcements and exchanges, restarts) executed on real replicas over the simulated network with every '
+               'message and notification under driver control, then the final phase (all links up, every pair observes the other, '
+               'messages delivered in seeded random order) run to rest and every replica compared with the set of acknowledged '
+               'writes; non-trivial = behaviour with at least one fault')
+    ck.assumptions = ['final phase as in the property: every link is up and every ordered pair of replicas observes the other joining the topic once more',
+                      'blocks held by a connected peer are fetchable (simulated block exchange)']
+    r = vlib.tlc_check('System.tla', sys_cfg('Spec', ['a', 'b'], 2 if not thorough else 3, 2), 'C02-safety', timeout=1500)
+    ck.require_model_ok(r, 'System safety, 2 replicas')
+    log('  TLC System safety: %d distinct / %d generated, %.0fs' % (r['distinct'], r['generated'], r['wall']))
+    r = vlib.tlc_check('System.tla', sys_cfg('FairSpec', ['a', 'b'], 2, 1, invs='Converged', props='Eventually'), 'C02-live', timeout=1500)
+    ck.require_model_ok(r, 'System liveness under fairness, 2 replicas')
+    bs = []
+    for k, reps in enumerate([['a', 'b'], ['a', 'b', 'c'], ['a', 'b', 'c', 'd']]):
+        sims, _ = vlib.tlc_simulate('SimSystem.tla', sys_cfg('SimSpec', reps, 3, 3, invs='LogsSane'), 'C02-sim%d' % k,
+                                    (120 if thorough else 12) if len(reps) < 4 else (40 if thorough else 4), 30, SEED * 17 + k, rename=SYS_RENAME)
+        for b in sims:
+            b['reps'] = reps
+        bs += sims
+    for b in bs:
+        if any(s['action'] in ('Cut', 'Drop', 'Restart') or (s['action'] == 'Receive' and s['args'][1] is True) for s in b['steps']):
+            ck.distinct.add(vlib.beh_signature(b))
+    tot = {'behaviours': 0, 'steps': 0, 'comparisons': 0, 'violations': 0, 'drift': 0}
+    for n in (2, 3, 4):
+        sub = [b for b in bs if len(b['reps']) == n]
+        inp = {'property': prop, 'seed': SEED, 'replicas': ['a', 'b', 'c', 'd'][:n], 'behaviours': sub}
+        res = vlib.run_vh('system', inp, tag='C02-%d' % n, timeout=900 if not thorough else 3000)
+
+        def payload(v, inp=inp, sub=sub):
+            b = [x for x in sub if x['id'] == v['behaviour']]
+            return {'command': 'system', 'input': dict(inp, behaviours=b), 'violation': v}
+        ck.add_harness(res, payload, 'system %d replicas' % n)
+        if not res.get('inconclusive') and not res.get('crashed'):
+            ck.traces_validated += res.get('behaviours', 0)
+        for k in tot:
+            tot[k] += len(res['violations']) if k == 'violations' else (res.get('stats', {}).get('drift', 0) if k == 'drift' else res.get(k, 0))
+    log('  system: %(behaviours)d behaviours, %(steps)d steps, %(comparisons)d comparisons, %(violations)d violations, drift %(drift)d' % tot)
+    return ck.finish()
